@@ -314,3 +314,20 @@ def c_bohm2(ctx, it, cfg):
     want = -V / 2 * sum((ev.get(i) * inner.get(i) for i in range(6)), 0)
     ctx.prove('energy = -V/2 e.(C_M (S - I) [(C_P - C_M) S + C_M]^-1 C_P e)', eq(E, want))
     ctx.prove('canary/energy-is-zero', eq(E, 0), expect='refuted')
+
+
+@REG.contract('invert4rankTensor', [EF + ':invert4rankTensor', EF + ':convert4To2rankTensor', EF + ':convert2To4rankTensor'])
+def c_inv4(ctx, it, cfg):
+    """the fourth-rank inverse is the 6x6 inverse of the tensor's own 6x6 image (no symmetrisation, no transposition), mapped back; the inhomogeneous-inclusion
+    matrix (C_P - C_M) S + C_M is NOT symmetric in general, so this matters for the agreement of the 6x6 and fourth-rank routes"""
+    m = it.load(EF).env
+    A2, v = sym66(ctx, 'a', symmetric=False)
+    A4 = m['convert2To4rankTensor'](A2)
+    got = m['invert4rankTensor'](A4)
+    img = m['convert4To2rankTensor'](A4)
+    ctx.prove('6x6-image-of-the-argument-is-the-matrix-itself', and_(*[eq(img.get(i, j), v[(i, j)]) for i in range(6) for j in range(6)]))
+    want = m['convert2To4rankTensor'](NP.linalg.inv(img))
+    for ix in [(0, 0, 0, 0), (0, 0, 1, 1), (1, 1, 0, 0), (0, 1, 0, 1), (0, 1, 2, 2), (2, 2, 0, 1), (1, 2, 0, 2), (0, 2, 1, 2)]:
+        ctx.prove('inverse%d%d%d%d-is-the-entry-of-the-6x6-inverse-of-this-matrix' % ix, eq(got.get(*ix), want.get(*ix)))
+    tr = m['convert2To4rankTensor'](NP.linalg.inv(NP.array([[v[(j, i)] for j in range(6)] for i in range(6)])))
+    ctx.prove('canary/inverse-of-the-transpose', eq(got.get(0, 0, 1, 1), tr.get(0, 0, 1, 1)), expect='refuted')
